@@ -289,6 +289,16 @@ pub const API_PATTERNS: &[(&str, &str)] = &[
     ("", "(?<first>\\w+)\\s+(?<second>\\w+)"),
     ("", "^a"),
     ("", "(?<q>)"),
+    // groups in branches that can never match, or are never entered
+    ("", "(a)?(?:(?!(b))[]|z)"),
+    ("", "(?:(?!(?<n>b))[]|z)(?<t>w)"),
+    ("", "(?:[](x))?(y)"),
+    ("", "(?:(?<d>a)[^\\s\\S]|b)(c)"),
+    ("", "(?<a>a){0}(b)"),
+    ("", "(?:(a)|b){0}c(d)"),
+    ("", "(?=(?<l>a))?a(?!(?<m>b)b)"),
+    ("", "[(](x)[)\\](]"),
+    ("v", "[[(]--[)]](x)"),
 ];
 
 const API_ALPHABET: &[u32] = &[
@@ -304,9 +314,34 @@ fn random_text(rng: &mut Rng, maxlen: usize) -> String {
 /// A (flags, pattern, regex, haystacks) tuple: from the fixed pool or generated. The haystacks are
 /// derived from the pattern (sampled from the AST, or random strings over the pattern's own
 /// characters) so that most of them match.
+/// Patterns in which one match of an iteration sets a group (inside a look-around, or capturing the
+/// empty string) that a *later* match of the same iteration does not take part in but refers to or
+/// reports: state carried from one `next()` to the next becomes visible.
+fn carried_state_family() -> Vec<String> {
+    let mut v = vec![];
+    for look in ["(?=", "(?<=", "(?!", "(?<!", "(?:"] {
+        for g in ["a", "b", "", "a|b", "a*"] {
+            for t in ["b", "a", "", "ab"] {
+                for u in ["", "a", "b"] {
+                    v.push(format!("{}({}))|{}\\1{}", look, g, t, u));
+                    v.push(format!("{}({})){}|{}(c)?{}", look, g, u, t, u));
+                    v.push(format!("(?:{}({}))|{})\\1{}", look, g, t, u));
+                }
+            }
+        }
+    }
+    v
+}
+
 fn api_regex(rng: &mut Rng) -> Option<(String, String, Regex, Vec<String>)> {
     if rng.chance(1, 2) {
-        let (f, p) = *rng.pick(API_PATTERNS);
+        let fam;
+        let (f, p): (&str, &str) = if rng.chance(1, 3) {
+            fam = carried_state_family();
+            ("", rng.pick(&fam).as_str())
+        } else {
+            *rng.pick(API_PATTERNS)
+        };
         let re = compile(p, f, false).ok()?;
         let mut alpha: Vec<char> = p.chars().filter(|c| c.is_alphanumeric()).collect();
         alpha.extend("12 -ab".chars());
@@ -329,6 +364,47 @@ fn api_regex(rng: &mut Rng) -> Option<(String, String, Regex, Vec<String>)> {
         let hays = ast::haystacks(&n, flags, rng, 4).iter().map(|h| ast::to_string(h)).collect();
         Some((flags.to_string(), p, re, hays))
     }
+}
+
+/// The capture groups of a pattern in left-parenthesis order ("" = unnamed), read off the source
+/// text alone — the property speaks about the groups *of the pattern*, not of the compiled program.
+pub fn source_groups(pat: &str, vmode: bool) -> Vec<String> {
+    let cs: Vec<char> = pat.chars().collect();
+    let mut out = vec![];
+    let mut i = 0;
+    let mut depth = 0usize;
+    while i < cs.len() {
+        let c = cs[i];
+        if c == '\\' {
+            i += 2;
+            continue;
+        }
+        if depth > 0 {
+            if c == ']' {
+                depth -= 1;
+            } else if c == '[' && vmode {
+                depth += 1;
+            }
+        } else if c == '[' {
+            depth = 1;
+        } else if c == '(' {
+            if cs.get(i + 1) == Some(&'?') {
+                if cs.get(i + 2) == Some(&'<') && !matches!(cs.get(i + 3), Some('=') | Some('!')) {
+                    let mut j = i + 3;
+                    let mut name = String::new();
+                    while j < cs.len() && cs[j] != '>' {
+                        name.push(cs[j]);
+                        j += 1;
+                    }
+                    out.push(name);
+                }
+            } else {
+                out.push(String::new());
+            }
+        }
+        i += 1;
+    }
+    out
 }
 
 fn names_token(re: &Regex) -> String {
@@ -450,6 +526,28 @@ pub fn c16(rep: &mut Report, n: usize, seed: u64) {
                 };
                 rep.case(&format!("{}/{}/{}/{}", flags, pat, text, m.range.start), !names.is_empty());
                 rep.count(if names.is_empty() { "unnamed-only" } else if dup { "duplicate-names" } else { "named" });
+                // the pattern's own groups, read off its source
+                let src = source_groups(&pat, flags.contains('v'));
+                if !src.iter().any(|n| n.contains('\\')) {
+                    if m.captures.len() != src.len() {
+                        rep.violation("impl-vs-spec", format!("captures.len() = {} but the pattern has {} capturing groups", m.captures.len(), src.len()), format!("{} {} {:?}", flags, pat, text));
+                    }
+                    let mut want: Vec<&String> = vec![];
+                    for n in src.iter().filter(|n| !n.is_empty()) {
+                        if !want.contains(&n) {
+                            want.push(n);
+                        }
+                    }
+                    let mut got: Vec<&str> = vec![];
+                    for (n, _) in m.named_groups() {
+                        if !got.contains(&n) {
+                            got.push(n);
+                        }
+                    }
+                    if want.iter().map(|s| s.as_str()).collect::<Vec<_>>() != got {
+                        rep.violation("impl-vs-spec", format!("named_groups() names {:?} are not the pattern's names in source order {:?}", got, want), format!("{} {} {:?}", flags, pat, text));
+                    }
+                }
                 // property-level identities on the implementation itself
                 if m.captures.len() != count_groups_of(&re) {
                     rep.violation("impl-vs-spec", "captures.len() != number of groups".into(), format!("{} {} {:?}", flags, pat, text));
